@@ -39,6 +39,8 @@ Blocks == {WE(If(TrueE, b, <<>>, NoElse), wc, ewc) : b \in Inner, wc \in Wcs, ew
           \cup {WE(Capture("y", b), wc, ewc) : b \in Inner, wc \in WcsFew, ewc \in WcsFew}
           \cup {WE(Case(V("x"), <<[When(<<I(1)>>, b) EXCEPT !.wc = wc]>>, NoElse), <<"", "">>, ewc) : b \in Inner, wc \in Wcs, ewc \in WcsFew}
           \cup {WE(With(<<WArg("y", I(1))>>, b), wc, ewc) : b \in Inner, wc \in WcsFew, ewc \in WcsFew}
+          \* a case with no branch at all: its two tags still trim what is next to them, and nothing else
+          \cup {WE(Case(V("x"), <<>>, NoElse), wc, ewc) : wc \in Wcs, ewc \in Wcs}
           \cup {WE(Unless(FalseE, b, <<>>, NoElse), wc, ewc) : b \in Inner, wc \in WcsFew, ewc \in WcsFew}
 
 \* blank-block suppression: blocks holding only whitespace, comments, assigns, captures,
